@@ -224,11 +224,11 @@ IntendedAddrs(d) == LET sl == (StartByte(d) \div d.L) * d.L IN [i \in DOMAIN d.r
 D4Shape(d) == /\ d.rd > 0 /\ d.perr = ""
               /\ \A i \in DOMAIN d.rows : d.rows[i].a = BuiltAddrText(IntendedAddrs(d)[i], d.ab, d.W, d.rd)
               /\ AsRequiredA(d, IntendedAddrs(d))
-Sig(d) ==
+Sig(d) ==                               \* of a dump that AsRequired rejects
     IF d.perr # "" THEN "dump.unparseable"
+    ELSE IF D4Shape(d) THEN "dump.nested_root_addr_width"   \* whichever predicate the cut addresses happen to break
     ELSE IF ~TrueA(d, Addrs(d)) THEN
-         IF D4Shape(d) THEN "dump.nested_root_addr_width"
-         ELSE IF \E i \in DOMAIN d.rows : Addrs(d)[i] < 0 \/ Addrs(d)[i] % d.L # 0 THEN "dump.false_address"
+         IF \E i \in DOMAIN d.rows : Addrs(d)[i] < 0 \/ Addrs(d)[i] % d.L # 0 THEN "dump.false_address"
          ELSE "dump.false_byte"
     ELSE IF ~OnceA(d, Addrs(d)) THEN "dump.bytes_not_one_run"
     ELSE IF ~CompleteA(d, Addrs(d)) THEN "dump.incomplete_without_truncation"
